@@ -93,7 +93,7 @@ int32_t getEcPubKey(psPool_t *pool, const unsigned char **pp, psSize_t len,
     }
 
     if ((uint16_t) (end - p) < 1 || (*(p++) != ASN_BIT_STRING) ||
-        getAsnLength(&p, len - 1, &arcLen) < 0 ||
+        getAsnLength(&p, (uint16_t) (end - p), &arcLen) < 0 ||
         (uint16_t) (end - p) < arcLen ||
         arcLen < 1)
     {
